@@ -419,6 +419,9 @@ func c04PolicyCases(c *core.Ctx, pkg *packages.Package, fd *ast.FuncDecl) (cases
 		if cs, at := c04PolicyTable(c, t, pkg, fd); at != nil {
 			return cs, nil, at
 		}
+		if cs, at := c04PolicyIfChain(c, t, pkg, fd); at != nil {
+			return cs, nil, at
+		}
 	}
 	if sw == nil {
 		return nil, nil, nil
@@ -704,6 +707,146 @@ func c04PolicyTable(c *core.Ctx, t *c04Typer, pkg *packages.Package, fd *ast.Fun
 		cases = append(cases, pc)
 	}
 	return cases, at
+}
+
+// c04PolicyIfChain handles the dispatch written as early-return ifs on the policy:
+//
+//	policy := spec.Policy
+//	if policy == A { return newA(..) } ; if policy == B || policy == C { return newB(..) } ; … ; return newDefault(..)
+//
+// One case per top-level if whose condition is an ||-combination of `P == const` on one
+// configuration-only expression P and whose body returns; the returns that follow the chain are
+// the "<other>" case (it also serves the policies no if mentions).
+func c04PolicyIfChain(c *core.Ctx, t *c04Typer, pkg *packages.Package, fd *ast.FuncDecl) ([]c04PolicyCase, ast.Node) {
+	info := pkg.TypesInfo
+	env := c04Env{}
+	if sig, ok := t.newLB.Type().(*types.Signature); ok {
+		for i := 0; i < sig.Params().Len(); i++ {
+			if _, isSlice := sig.Params().At(i).Type().Underlying().(*types.Slice); !isSlice {
+				env[sig.Params().At(i)] = true
+			}
+		}
+	}
+	if fd.Recv != nil && len(fd.Recv.List) == 1 && len(fd.Recv.List[0].Names) == 1 {
+		env[info.Defs[fd.Recv.List[0].Names[0]]] = true
+	}
+	// single-assignment locals computed from configuration only (`policy := spec.Policy`)
+	for _, st := range fd.Body.List {
+		as, ok := st.(*ast.AssignStmt)
+		if !ok || len(as.Lhs) != len(as.Rhs) {
+			continue
+		}
+		for i, l := range as.Lhs {
+			id, ok := l.(*ast.Ident)
+			if !ok || !t.specOnly(pkg, as.Rhs[i], env) {
+				continue
+			}
+			o := c04ObjOf(info, id)
+			n := 0
+			ast.Inspect(fd.Body, func(x ast.Node) bool {
+				if a2, ok := x.(*ast.AssignStmt); ok {
+					for _, l2 := range a2.Lhs {
+						if id2, ok := l2.(*ast.Ident); ok && c04ObjOf(info, id2) == o {
+							n++
+						}
+					}
+				}
+				return true
+			})
+			if n == 1 {
+				env[o] = true
+			}
+		}
+	}
+	var subject string
+	var consts func(e ast.Expr) ([]string, bool)
+	consts = func(e ast.Expr) ([]string, bool) {
+		e = ast.Unparen(e)
+		b, ok := e.(*ast.BinaryExpr)
+		if !ok {
+			return nil, false
+		}
+		if b.Op.String() == "||" {
+			l, ok1 := consts(b.X)
+			r, ok2 := consts(b.Y)
+			return append(l, r...), ok1 && ok2
+		}
+		if b.Op.String() != "==" {
+			return nil, false
+		}
+		x, k := b.X, b.Y
+		if tv := info.Types[x]; tv.Value != nil {
+			x, k = k, x
+		}
+		tv := info.Types[k]
+		if tv.Value == nil || tv.Value.Kind() != constant.String || !t.specOnly(pkg, x, env) {
+			return nil, false
+		}
+		r := types.ExprString(x)
+		if subject == "" {
+			subject = r
+		}
+		if r != subject {
+			return nil, false
+		}
+		return []string{constant.StringVal(tv.Value)}, true
+	}
+	returnsIn := func(n ast.Node) bool {
+		found := false
+		ast.Inspect(n, func(x ast.Node) bool {
+			if _, ok := x.(*ast.FuncLit); ok {
+				return false
+			}
+			if _, ok := x.(*ast.ReturnStmt); ok {
+				found = true
+			}
+			return !found
+		})
+		return found
+	}
+	var cases []c04PolicyCase
+	var first ast.Node
+	other := c04PolicyCase{label: "<other>", set: &c04TypeSet{types: map[string]types.Type{}}}
+	for _, st := range fd.Body.List {
+		switch x := st.(type) {
+		case *ast.IfStmt:
+			if !returnsIn(x) {
+				continue // e.g. a log statement for unknown policies
+			}
+			ps, ok := consts(x.Cond)
+			if !ok || x.Else != nil || x.Init != nil {
+				return nil, nil // a returning if of another form: not an if-chain the rule understands
+			}
+			if first == nil {
+				first = x
+			}
+			pc := c04PolicyCase{at: x, policies: ps, set: &c04TypeSet{types: map[string]types.Type{}}}
+			var labels []string
+			for _, p := range ps {
+				if p == "" {
+					p = `""`
+				}
+				labels = append(labels, p)
+			}
+			pc.label = strings.Join(labels, ",")
+			pc.set.add(t.returnTypes(pkg, fd, x.Body, env, 0))
+			cases = append(cases, pc)
+		case *ast.ReturnStmt:
+			if len(x.Results) == 0 {
+				return nil, nil
+			}
+			other.at = x
+			other.set.add(t.exprTypes(pkg, fd, x.Results[0], env, 0))
+		default:
+			if returnsIn(st) {
+				return nil, nil
+			}
+		}
+	}
+	if len(cases) < 2 || other.at == nil {
+		return nil, nil
+	}
+	return append(cases, other), first
 }
 
 // c04OneType emits the obligations.
